@@ -34,7 +34,9 @@ def run(tier):
         for s in sums[region]:
             if s.faults:
                 continue
-            acc = s.k_pre.hi == 0 or (s.k_pre.lo >= 1 and s.M is True)
+            # accepted unless a mapper is known to be active AND the sender is known to be someone else: a path that drops
+            # the Discover before establishing exactly that loses Discovers the property says are answered
+            acc = not (s.k_pre.lo >= 1 and s.M is False)
             if not acc:
                 continue
             accepted += 1
